@@ -75,7 +75,14 @@ pub enum RV {
     Closure(Rc<Closure>),
     Builtin(String),
     Host(String),
+    /// a syntax-rules macro of the simplest shape: (K p ...) -> template, pattern variables only
+    Macro(Rc<MacroDef>),
     Unspec,
+}
+
+pub struct MacroDef {
+    pub keyword: String,
+    pub rules: Vec<(Vec<String>, Sx)>,
 }
 
 pub struct VecObj {
@@ -319,6 +326,42 @@ impl Machine {
 
     /// a form that may be a definition (top level, library body, procedure body)
     fn eval_body_form(&mut self, form: &Sx, env: &FrameRef) -> Result<RV, RErr> {
+        if form.head_sym() == Some("define-syntax") {
+            // (define-syntax K (syntax-rules () ((K p ...) template) ...)), pattern variables only
+            let v = match form {
+                Sx::List(v) if v.len() == 3 => v,
+                _ => return Err(RErr::Syntax),
+            };
+            let keyword = v[1].as_sym().ok_or(RErr::Syntax)?.to_string();
+            let sr = match &v[2] {
+                Sx::List(sr) if sr.len() >= 2 && sr[0].as_sym() == Some("syntax-rules") => sr,
+                _ => return Err(RErr::Unsupported("define-syntax without syntax-rules".into())),
+            };
+            if !matches!(&sr[1], Sx::List(l) if l.is_empty()) {
+                return Err(RErr::Unsupported("syntax-rules literals".into()));
+            }
+            let mut rules = vec![];
+            for r in &sr[2..] {
+                let (pat, tmpl) = match r {
+                    Sx::List(r) if r.len() == 2 => (&r[0], &r[1]),
+                    _ => return Err(RErr::Syntax),
+                };
+                let pv = match pat {
+                    Sx::List(p) if !p.is_empty() && p[0].as_sym() == Some(keyword.as_str()) => p,
+                    _ => return Err(RErr::Unsupported("pattern shape".into())),
+                };
+                let mut params = vec![];
+                for x in &pv[1..] {
+                    match x.as_sym() {
+                        Some("...") | Some("_") | None => return Err(RErr::Unsupported("pattern element".into())),
+                        Some(p) => params.push(p.to_string()),
+                    }
+                }
+                rules.push((params, tmpl.clone()));
+            }
+            env.define(&keyword, RV::Macro(Rc::new(MacroDef { keyword: keyword.clone(), rules })));
+            return Ok(RV::Unspec);
+        }
         if form.head_sym() == Some("define") {
             let v = match form {
                 Sx::List(v) => v,
@@ -473,6 +516,17 @@ impl Machine {
                             return Err(RErr::Unsupported(format!("{} in expression", head)))
                         }
                         _ => {}
+                    }
+                }
+                if let Some(head) = v[0].as_sym() {
+                    if let Some(RV::Macro(m)) = env.lookup(head) {
+                        for (params, tmpl) in &m.rules {
+                            if params.len() == v.len() - 1 {
+                                let expanded = substitute(tmpl, params, &v[1..]);
+                                return self.eval(&expanded, env);
+                            }
+                        }
+                        return Err(RErr::Syntax);
                     }
                 }
                 let f = self.eval(&v[0], env)?;
@@ -977,6 +1031,22 @@ impl Machine {
                 Ok(out)
             }
         }
+    }
+}
+
+fn substitute(tmpl: &Sx, params: &[String], args: &[Sx]) -> Sx {
+    match tmpl {
+        Sx::Sym(s) => match params.iter().position(|p| p == s) {
+            Some(i) => args[i].clone(),
+            None => tmpl.clone(),
+        },
+        Sx::List(v) => Sx::List(v.iter().map(|x| substitute(x, params, args)).collect()),
+        Sx::Vector(v) => Sx::Vector(v.iter().map(|x| substitute(x, params, args)).collect()),
+        Sx::Dotted(v, t) => Sx::Dotted(
+            v.iter().map(|x| substitute(x, params, args)).collect(),
+            Box::new(substitute(t, params, args)),
+        ),
+        other => other.clone(),
     }
 }
 
